@@ -332,7 +332,7 @@ def run_config(chk, ctx, name):
 
         def ldep(d, pf=pf):
             lens = [t for b, t in d["calls"] if (flow.decl_path(t) or "").endswith("core::slice::len") or core.strip_generics(core.callee_path(t) or "") == "core::slice::len"]
-            on_data = any(flow.origin(pf, t["args"][0]) == ("arg", 1) for t in lens)
+            on_data = any(is_data_or_suffix(pf, t["args"][0]) for t in lens)
             eq = any(r["op"] in ("Eq", "Ne") for r in d["binops"])
             return on_data and eq
         g = gf.find_guards(pf, ldep, somes)
@@ -343,6 +343,42 @@ def run_config(chk, ctx, name):
             d = g[0].deps
             chk.ob("GF-EXACT-%s.depends-on-parsed-lengths" % which, pf.key + tag, len(d["calls"]) >= 2,
                    "the exact-length comparison in %s does not depend on the lengths of the parsed parts" % pf.path, where=pf.loc(g[0].block))
+
+
+def is_data_or_suffix(pf, operand, depth=0):
+    """The parser's input slice itself, or a suffix `data[i..]` / `data.get(i..)?` of it (then `suffix.len() == last.len()` is the
+    same exact-length test as `i + last.len() == data.len()`)."""
+    o = flow.origin(pf, operand)
+    if o == ("arg", 1):
+        return True
+    if depth > 6:
+        return False
+    if o[0] == "call":
+        t = o[2]
+        last = core.strip_generics(core.callee_path(t) or "").rsplit("::", 1)[-1]
+        if last in ("get", "index") and len(t["args"]) == 2 and "RangeFrom" in (core.op_place(t["args"][1]) or {}).get("ty", ""):
+            return is_data_or_suffix(pf, t["args"][0], depth + 1)
+        if last in ("branch", "unwrap", "expect", "ok_or", "ok") and t["args"]:
+            return is_data_or_suffix(pf, t["args"][0], depth + 1)
+    if o[0] in ("local", "field") and o[1] is not None:
+        # payload of `?` on an Option<&[u8]>: (x as Continue).0 / (x as Some).0
+        ds = [d for d in pf.defs_of(o[1]) if not pf.blocks[d[0]]["cleanup"]]
+        if len(ds) == 1 and ds[0][1] != "term" and ds[0][2]["k"] == "assign" and ds[0][2]["rv"]["k"] == "use":
+            p = core.op_place(ds[0][2]["rv"]["op"])
+            if p is not None and p["proj"]:
+                return is_data_or_suffix(pf, {"k": "copy", "place": {"local": p["local"], "proj": [], "ty": ""}}, depth + 1)
+        if len(ds) == 1 and ds[0][1] == "term":
+            return is_data_or_suffix(pf, {"k": "copy", "place": {"local": o[1], "proj": [], "ty": ""}}, depth + 1) if False else _call_suffix(pf, ds[0][2], depth)
+    return False
+
+
+def _call_suffix(pf, t, depth):
+    last = core.strip_generics(core.callee_path(t) or "").rsplit("::", 1)[-1]
+    if last in ("get", "index") and len(t["args"]) == 2 and "RangeFrom" in (core.op_place(t["args"][1]) or {}).get("ty", ""):
+        return is_data_or_suffix(pf, t["args"][0], depth + 1)
+    if last in ("branch", "unwrap", "expect", "ok_or", "ok") and t["args"]:
+        return is_data_or_suffix(pf, t["args"][0], depth + 1)
+    return False
 
 
 def leaf_guard_count(F, A):
